@@ -41,10 +41,9 @@ def parseNB : Nat → List Char → List ((String × Nat) × List Char) → Bool
   | 0, _, _ => false
   | _, [], _ => true
   | fuel+1, w, frames =>
-    frames.any (fun f =>
-      let k := lcp f.2 w
-      let k := k - k % 2              -- whole bytes (two hex digits each)
-      k > 0 && parseNB fuel (w.drop k) (frames.filter (·.1 != f.1)))
+    -- candidates with the longest match first (the same search; a passing wire is then found without backtracking)
+    let cands := (frames.map (fun f => let k := lcp f.2 w; (k - k % 2, f))).filter (fun c => c.1 > 0)   -- whole bytes (two hex digits each)
+    (cands.mergeSort (fun a b => a.1 ≥ b.1)).any (fun c => parseNB fuel (w.drop c.1) (frames.filter (·.1 != c.2.1)))
 
 def tidNum (t : String) : Nat := ((t.drop 1).toString.toNat?).getD 0
 
